@@ -249,9 +249,11 @@ def run(ctx: core.Run):
                                      {"file": label, "problem": pr})
                         continue
                     plane = hdr[2] * ((hdr[3] * hdr[4] + 7) // 8)
+                    # a whole number of planes, but not header.channels of them
                     one_more = (pr[0] == "rle-row-table-sum" and isinstance(pr[1], dict)
-                                and pr[1].get("planes_that_fit") == hdr[1] + 1) or \
-                               (pr[0] in ("raw-size", "zip-size") and pr[1] == (hdr[1] + 1) * plane)
+                                and pr[1].get("planes_that_fit") not in (None, hdr[1])) or \
+                               (pr[0] in ("raw-size", "zip-size") and plane > 0 and isinstance(pr[1], int)
+                                and pr[1] % plane == 0 and pr[1] // plane != hdr[1])
                     if one_more and scen.startswith("api/edit-then-save"):
                         sig = "C03/merged-image/plane-count-mismatch-after-edit"
                     else:
